@@ -210,6 +210,18 @@ brk('C03', 'R03.12', 'pyiga/_hdiscr.py', 'pyiga._hdiscr.HDiscretization.assemble
 twin('C03', 'pyiga/_hdiscr.py', 'pyiga._hdiscr.HDiscretization.assemble_matrix', r"for lv in range\(k\):", 'for lv in range(0, k):', 'explicit start of the level range')
 brk('C05', 'R05.7', 'pyiga/hierarchical.py', 'pyiga.hierarchical.HSpace.prolongate_to', r"for l in range\(lv \+ 1, f_numlevels\):", 'for l in range(lv + 1, min(f_numlevels, lv + max(self.disparity, fine.disparity) + 1)):', 'propagation cut at the disparity again')
 twin('C05', 'pyiga/hierarchical.py', 'pyiga.hierarchical.HSpace.prolongate_to', r"for l in range\(lv \+ 1, f_numlevels\):", 'for l in range(1 + lv, fine.numlevels):', 'finest level spelled fine.numlevels')
+twin('C05', 'pyiga/hierarchical.py', 'pyiga.hierarchical.HSpace.virtual_hierarchy_prolongators',
+     r"            prolongators = \[\n                    self\.truncate_one_level\(k, num_rows=P\.shape\[0\], inverse=True\) @ P\n                    for k, P in enumerate\(prolongators\)\]",
+     """            thb = []
+            for k, P in enumerate(prolongators):
+                n = P.shape[0]
+                T = Tinv = scipy.sparse.eye(n, format='csr')
+                for j in range(k):
+                    T = self.truncate_one_level(j, num_rows=n) @ T
+                    Tinv = Tinv @ self.truncate_one_level(j, num_rows=n, inverse=True)
+                Tinv = Tinv @ self.truncate_one_level(k, num_rows=n, inverse=True)
+                thb.append((Tinv @ T @ P).tocsc())
+            prolongators = thb""", 'the repaired THB prolongators (conjugation with the lower truncations): R05.8 met, no finding')
 # ---- rules added after the first wave of independently seeded changes (seeded/S01..S08): variants of those changes, and
 #      behaviour-preserving rewrites of the same constructs
 brk('C03', 'R03.7', 'pyiga/_hdiscr.py', 'pyiga._hdiscr.HDiscretization.assemble_matrix', r"(\n(\s*)for lv in range\(max\(0, k - hs\.disparity\), k\):)", r"\1\n\2    if not neighbors[k][lv]:\n\2        continue", 'coarser level skipped inside the accumulation loop')
